@@ -301,7 +301,7 @@ int main(int argc, char** argv) {
         Real sched  = R.p(0.2) ? Infinity : tStart + 0.2 + R.u();
         if (R.p(0.1)) report = Infinity;
         if (report == Infinity && sched == Infinity && fin == Infinity && limit <= 0 && !everyStep) report = tStart + 0.1;
-        int nEnd = 0;
+        int nEnd = 0; bool aimedLow = false;   // the pending report was placed exactly at the low end of a localized, unreported event window
         for (int call = 0; call < 60; ++call) {
             if (integ->isSimulationOver()) {
                 doCall(*integ, S.system, report + 1, sched + 1, st);   // must be refused
@@ -309,14 +309,21 @@ int main(int argc, char** argv) {
             }
             if (!doCall(*integ, S.system, report, sched, st)) break;
             Real t = integ->getTime(), adv = integ->getAdvancedTime();
+            // an event window reported AT the pending report time that was aimed at its low end: the report was due first (report <=
+            // tLow); a caller that still holds it asks for it again after the handler ran, exactly as a TimeStepper does
+            const bool heldReport = aimedLow && st == Integrator::ReachedEventTrigger && t == report;
+            if (!heldReport && (st == Integrator::ReachedReportTime || t > report)) aimedLow = false;
             if (st == Integrator::ReachedEventTrigger) {
                 int o = R.k(3);
+                if (aimedLow && t == report) o = 1;   // an event reported AT a pending report time: let the handler change the state, then ask for that report again
                 if (o == 1) { printf("REINIT 1 0\n"); integ->reinitialize(Stage::Position, false); }
                 else if (o == 2) { printf("REINIT 0 0\n"); integ->reinitialize(Stage::Report, false); }
                 t = integ->getTime(); adv = integ->getAdvancedTime();
             }
             // new requests: report >= current time; sched never below the time already advanced to
-            if (st == Integrator::ReachedReportTime || t >= report) {
+            // (a report time that was reached by another kind of return -- t == report without ReachedReportTime -- is kept half of
+            //  the time, as a TimeStepper does: the report is still pending and must come next, at that same time)
+            if (!heldReport && (st == Integrator::ReachedReportTime || t > report || (t == report && !aimedLow && R.p(0.5)))) {
                 int o = R.k(10);
                 if (o == 0) report = t;                                   // equal to the current time
                 else if (o == 1) report = Infinity;
@@ -337,9 +344,10 @@ int main(int argc, char** argv) {
             // (known only through the hooks): ask for a report exactly at tLow, or between now and tLow
             if (kind != 8 && g_exitComm == 1 && g_exitLow >= t) {
                 int o = R.k(4);
-                if (o <= 1) report = g_exitLow; else if (o == 2) report = t + R.u()*(g_exitLow - t);
+                if (o <= 1) { report = g_exitLow; aimedLow = true; } else if (o == 2) report = t + R.u()*(g_exitLow - t);
             }
-            if (report < t) report = t;
+            if (report < t && !heldReport) report = t;
+            if (heldReport) aimedLow = false;
             if (sched < adv) sched = adv;
             // never ask for an unbounded integration
             if (report == Infinity && sched == Infinity && fin == Infinity && limit <= 0 && !everyStep)
